@@ -1239,7 +1239,18 @@ impl<'a> PredGen<'a> {
                     Box::new(Pred::BoolCol(col)),
                     *rng.pick(&[IsKind::True, IsKind::False, IsKind::NotTrue, IsKind::NotFalse]),
                 ),
-                4 => Pred::In { col, lits: vec![self.lit_for(rng, col)], neg: rng.chance(1, 3) },
+                4 => Pred::In {
+                    col,
+                    // no NULL element inside IN lists (see the generic leaf below)
+                    lits: vec![{
+                        let mut l = self.lit_for(rng, col);
+                        while l.is_null() {
+                            l = self.lit_for(rng, col);
+                        }
+                        l
+                    }],
+                    neg: rng.chance(1, 3),
+                },
                 _ => Pred::Cmp {
                     col,
                     op: *rng.pick(&[CmpOp::Eq, CmpOp::Ne, CmpOp::Eq, CmpOp::Lt, CmpOp::Ge]),
